@@ -85,6 +85,11 @@ class Builder:
             rel = self.objs[h['o']].relations[h['ri'] - 1]
             rel.children.remove(self.objs.pop(h['n']))
             self.gone.append(h['n'])
+        elif a == 'EditReplaceKid':
+            owner = self.objs[h['o']]
+            rel = owner.relations[h['ri'] - 1]
+            k = rel.children.index(self.objs[h['n']])
+            rel.children[k] = self.objs[h['n']] = Feature(nm.conc(h['n']), parent=owner)
         elif a == 'EditAbstract':
             self.objs[h['f']].is_abstract = not self.objs[h['f']].is_abstract
         elif a == 'EditAttrVal':
